@@ -1,6 +1,7 @@
 """C01 check configuration."""
 
 PROP = {
+    "level_text_more": 'The services that can be blocked include one whose rules are restricted by query type (amazon: ||amazonaws.com^$dnstype=~CNAME); lists are also added and removed through the API at run time.',
     "thorough_scale": 4,
     "pkg": "internal/dnsforward",
     "files": ["dnsforward/common_world_test.go", "dnsforward/c01_test.go", "dnsforward/c01_runtime_test.go"],
